@@ -52,6 +52,7 @@ import yaml
 from . import fakes
 from .fakes import MODELS, PREDEF, SELF_CHECK_PROMPTS, Session, block_message, refusal_text
 
+EVENT_BUDGET = "Too many events."  # v1 runtime: `generate` raises Exception("Too many events.") after 100 new events in a turn
 _CACHE_SIZE = 6
 _cache = OrderedDict()
 _loop = {"loop": None}
@@ -482,13 +483,30 @@ def run_conversation(case, fresh=False, session_cls=Session):
         raise
 
 
+def _dump(case, exc):
+    """VF_DUMP=<dir>: keep the case of an unclassified exception (harness error) for debugging."""
+    import os
+
+    d = os.environ.get("VF_DUMP")
+    if d:
+        from .core import case_hash
+
+        os.makedirs(d, exist_ok=True)
+        with open(os.path.join(d, f"err-{case_hash(case)}.json"), "w") as f:
+            json.dump({"error": repr(exc)[:500], "case": case}, f, indent=1)
+
+
 def run_checked(case, check, session_cls=Session):
     """check(case, obs) -> result; a Violation found on a reused instance must reproduce on a fresh one."""
     from .core import Violation
 
     try:
         return check(case, run_conversation(case, fresh=False, session_cls=session_cls))
-    except Violation as first:
+    except Exception as e:
+        if not isinstance(e, Violation):
+            _dump(case, e)
+            raise
+        first = e
         try:
             check(case, run_conversation(case, fresh=True, session_cls=session_cls))
         except Violation:
@@ -514,3 +532,141 @@ def view(case, obs, max_len=160):
             }
         )
     return out
+
+
+# ------------------------------------------------------------------------------------------------
+# reference model of the rail chains (written from the property statements, independent of the code)
+#
+#   model_input(cfg, spec, t)      what the input rails of turn t must do
+#   model_output(cfg, spec, t, k)  what the output rails must do with the LLM text of call k of turn t
+#   chain_problem(calls, entries)  None, or a sentence saying how recorded invocations deviate from a chain
+#   reply_text / reply_exceptions  accessors for the value returned by generate
+
+
+def model_input(cfg, spec, t, selected=True):
+    """{"calls": [{"rail","sees","not","verdict"}], "blocked": i | None, "final": marker, "orig": marker}"""
+    orig = cur = fakes.mk_user(t)
+    calls = []
+    if not selected:
+        return {"calls": calls, "blocked": None, "final": cur, "orig": orig}
+    for i, kind in enumerate(cfg.get("in", [])):
+        v = fakes.eff(kind, (spec.get("in") or [])[i] if i < len(spec.get("in") or []) else "accept")
+        calls.append({"rail": f"in{i}", "sees": cur, "not": orig if cur != orig else None, "verdict": v})
+        if v == "reject":
+            return {"calls": calls, "blocked": i, "final": cur, "orig": orig}
+        if v == "rewrite":
+            cur = fakes.mk_rw_in(i, t)
+    return {"calls": calls, "blocked": None, "final": cur, "orig": orig}
+
+
+def model_output(cfg, spec, t, k, selected=True):
+    """Same for the output rails applied to the LLM text `LM{t}C{k}Z` (verdicts of the turn the rails run in)."""
+    orig = cur = fakes.mk_llm(t, k)
+    calls = []
+    if not selected:
+        return {"calls": calls, "blocked": None, "final": cur, "orig": orig}
+    for i, kind in enumerate(cfg.get("out", [])):
+        v = fakes.eff(kind, (spec.get("out") or [])[i] if i < len(spec.get("out") or []) else "accept")
+        calls.append({"rail": f"out{i}", "sees": cur, "not": orig if cur != orig else None, "verdict": v})
+        if v == "reject":
+            return {"calls": calls, "blocked": i, "final": cur, "orig": orig}
+        if v == "rewrite":
+            cur = fakes.mk_rw_out(i, t, k)
+    return {"calls": calls, "blocked": None, "final": cur, "orig": orig}
+
+
+def chain_problem(calls, entries, what, prefix_ok=False):
+    got = [e["rail"] for e in entries]
+    exp = [c["rail"] for c in calls]
+    if got != exp and not (prefix_ok and got == exp[: len(got)]):
+        return f"{what}: rail actions invoked {got}, reference model says {exp}"
+    for c, e in zip(calls, entries):
+        text = str(e["text"])
+        if c["sees"] not in text:
+            return f"{what}: {c['rail']} was given {text[:80]!r}, it must see the text carrying {c['sees']}"
+        if c.get("not") and c["not"] in text:
+            return f"{what}: {c['rail']} was given {text[:80]!r} which still carries the pre-rewrite marker {c['not']}"
+        if e.get("ctx") is not None and c["sees"] not in str(e["ctx"]):
+            return f"{what}: {c['rail']} ran while the context variable held {str(e['ctx'])[:80]!r}, expected the text carrying {c['sees']}"
+    return None
+
+
+def reply_text(obs_turn):
+    rep = obs_turn["reply"]
+    if not isinstance(rep, dict):
+        return ""
+    c = rep.get("content")
+    return c if isinstance(c, str) else ""
+
+
+def reply_exceptions(obs_turn):
+    """Rail-exception events carried by the reply: v1 role `exception`, v2 the `events` list."""
+    rep = obs_turn["reply"]
+    out = []
+    if isinstance(rep, dict):
+        if rep.get("role") == "exception" and isinstance(rep.get("content"), dict):
+            out.append(rep["content"])
+        for ev in rep.get("events") or []:
+            if isinstance(ev, dict) and str(ev.get("type", "")).endswith("Exception"):
+                out.append(ev)
+    return out
+
+
+def generated_texts(obs_turn):
+    """(turn, k) of every message text the LLM produced in this turn (bot-message / general / passthrough calls)."""
+    out = []
+    for c in obs_turn["llm"]:
+        if c["task"] in ("generate_bot_message", "general") and c["answer"] is not None:
+            out += fakes.lineage(c["answer"])
+    return out
+
+
+# ------------------------------------------------------------------------------------------------
+# shared Hypothesis strategies (every random choice of a case is drawn here)
+
+HOSTILE = "abcdehilorstuwy  \"'${}:%\n\\.,!?()[]<>|=*-_/"
+TAME = "abcdehilorstuwy  .,!?'"
+INTENT_EXAMPLES = ["hello there", "hi", "how is the weather", "tell me a joke", "tell me a story", "what is the status"]
+
+
+def st_user_text(t):
+    """User text of turn t: hostile characters and/or an intent example around the turn's marker."""
+    from hypothesis import strategies as st
+
+    noise = st.one_of(st.text(HOSTILE, max_size=10), st.sampled_from(INTENT_EXAMPLES), st.just(""), st.sampled_from(['{{ x }}', "$user_message", '"', "{$x}", "a: b", "x\ny", "{% if %}"]))
+    return st.tuples(noise, noise).map(lambda ab: f"{ab[0]}{' ' if ab[0] and ab[0][-1].isalnum() else ''}{fakes.mk_user(t)}{' ' if ab[1] and ab[1][0].isalnum() else ''}{ab[1]}")
+
+
+def st_verdict(kind, p_accept=5):
+    from hypothesis import strategies as st
+
+    if kind in ("check", "self"):
+        return st.sampled_from(["accept"] * p_accept + ["reject"] * 2)
+    if kind == "rewrite":
+        return st.sampled_from(["accept"] * 3 + ["rewrite"] * 3)
+    return st.sampled_from(["accept"] * 3 + ["reject"] * 2 + ["rewrite"] * 2)
+
+
+def st_rail_kinds(v, lo, hi, cat):
+    """Ordered rail pool: v1 check/rewrite/both/self, v2 check/self; at most one shipped self-check rail."""
+    from hypothesis import strategies as st
+
+    pool = ["check", "check", "rewrite", "both", "self"] if v == 1 else ["check", "check", "check", "self"]
+
+    def one_self(kinds):
+        seen, out = False, []
+        for k in kinds:
+            if k == "self":
+                if seen:
+                    k = "check"
+                seen = True
+            out.append(k)
+        return out
+
+    return st.lists(st.sampled_from(pool), min_size=lo, max_size=hi).map(one_self)
+
+
+def st_body():
+    from hypothesis import strategies as st
+
+    return st.text(TAME, min_size=1, max_size=16).map(lambda s: s.strip() or "words")
